@@ -134,7 +134,9 @@ class C11(Prop):
                 top = [{"k": "body", "c": [node(2) for _ in range(rnd.randint(0, 3))]}]
             else:
                 top = [node(1) for _ in range(rnd.randint(0, 4))]
-            args = rnd.choice([[], [["lang", "en"]], [["id", "y"], ["lang", "en"]], [["class", "c d"]]])
+            # (falsy but present values: 0 and the empty string are attribute values like any other)
+            args = rnd.choice([[], [["lang", "en"]], [["id", "y"], ["lang", "en"]], [["class", "c d"]],
+                               [["data-level", 0], ["lang", ""]], [["lang", ""], ["data-n", 0.0], ["id", "z"]]])
             gens.append({"kind": "doc", "tree": {"k": "root", "c": top}, "args": args,
                          "prefix": rnd.choice(["lib", None, "a/b", "x"]), "inclver": rnd.random() < 0.5, "later": rnd.random() < 0.3})
         leaf = lambda k: {"k": k, "c": []}
